@@ -415,6 +415,9 @@ impl<'a> BlobRef<'a> {
                             backtrack_data_idx += 1;
                             data_idx = backtrack_data_idx;
                             pattern_idx = backtrack_pattern_idx;
+                            // The pattern is re-read from the character after the %: the escape
+                            // marker, if any, is seen again there.
+                            in_escape = false;
                             continue;
                         }
                         return false;
@@ -468,11 +471,8 @@ impl<'a> BlobRef<'a> {
                 data_idx = backtrack_data_idx;
                 pattern_idx = backtrack_pattern_idx;
             } else {
-                // Pattern exhausted but data remains (only OK if trailing %)
-                // Check if pattern ends with %
-                if pattern.last() == Some(&b'%') {
-                    return true;
-                }
+                // Pattern exhausted but data remains and no % was seen: an unescaped trailing %
+                // would have been consumed above, so a last byte '%' here is an escaped, literal one.
                 return false;
             }
         }
